@@ -43,7 +43,10 @@ def generate(seed, mode):
     if mode.get('what') == 'order':
         n = w.randint(4, 9)
         pool = []
-        for i in range(n):
+        # a "name" that contains a blank and comes without a docstring is taken to be the docstring: such interfaces
+        # have __name__ None and are ordered by module alone; they live in worlds of their own (None does not order with str)
+        nameless = w.random() < 0.1
+        for i in range(n if not nameless else 0):
             if pool and w.random() < 0.25:
                 src = w.choice(pool)
                 k = w.random()
@@ -57,6 +60,8 @@ def generate(seed, mode):
             else:
                 item = {'kind': w.choice(['I', 'I', 'I', 'K']), 'name': w.choice(NAMES), 'mod': w.choice(MODS)}
             pool.append(item)
+        for i in range(n if nameless else 0):
+            pool.append({'kind': 'I', 'name': w.choice(['I x', 'I y', ' ', 'a b']), 'mod': w.choice(MODS[:4])})
         perms = [o.getrandbits(30) for _ in range(3)]
         return {'machine': MACHINE, 'seed': seed, 'world': {'pool': pool}, 'ops': [{'op': 'laws', 'perms': perms}]}
     # pickle
@@ -205,10 +210,16 @@ def execute_order(program, ctx, mode):
     def fresh(x):
         # a new, non-interned string object with the same value (names built at run time, unpickled, decoded ...)
         return (x + '#')[:-1]
+    sd = program.get('seed') or 0
     for i, it in enumerate(pool):
         if it['kind'] == 'I':
-            s = InterfaceClass(fresh(it['name']), (Interface,), {}, __module__=fresh(it['mod']))
-            key = (it['name'], it['mod'])
+            # names and modules are interned strings (what a class statement gives) or fresh objects, independently
+            mkn = sys.intern if h64(sd, i, 'name') & 1 else fresh
+            mkm = sys.intern if h64(sd, i, 'mod') & 1 else fresh
+            s = InterfaceClass(mkn(it['name']), (Interface,), {}, __module__=mkm(it['mod']))
+            key = (None if ' ' in it['name'] else it['name'], it['mod'])
+            if s.__name__ != key[0]:
+                ctx.violation('C12', 'interface-name', 'C12|interface-key', {'got': s.__name__, 'want': key[0]})
         else:
             cls = type(it['name'] or 'X', (object,), {'__module__': it['mod']})
             cls.__name__ = it['name']
@@ -279,7 +290,12 @@ def execute_order(program, ctx, mode):
             ctx.violation('C12', 'none', 'C12|None|%s' % kinds[i], {'a': keys[i], 'got': r})
         hash(s)
     # foreign operands: logged for the cross-implementation / cross-process comparison
-    for f in (Foreign(), Foreign('I', 'm'), Foreign('I'), object(), 3, 'I', Foreign(keys[0][0], keys[0][1])):
+    foreign = [Foreign(), Foreign('I', 'm'), Foreign('I'), object(), 3, 'I', Foreign(keys[0][0], keys[0][1])]
+    if any(k[0] is None for k in keys):
+        # a nameless interface against an operand with a string name compares None with str: the known error-path
+        # divergence F11d (C: False, Python: TypeError); only operands without a name are used there
+        foreign = [Foreign(), object(), 3, 'I']
+    for f in foreign:
         row = []
         for s in specs[:3]:
             for opn, fn in ops:
